@@ -322,7 +322,7 @@ def run(ctx):
     lookups = [dict(id=i, ev=e['ev'], keys=e['keys']) for i, e in enumerate(evs)]
     g = Gen(rnd)
     allkeys = ['note', 'midinote', 'freq', 'amp', 'delta', 'sustain']
-    nre = 6000 if thorough else 800
+    nre = 20000 if thorough else 800
     for _ in range(nre):
         ev = g.event()
         keys = allkeys
@@ -332,7 +332,7 @@ def run(ctx):
     for p in progs:
         for (s, lat, clock) in (starts if thorough else [starts[len(plays) % 5], starts[(len(plays) + 2) % 5]]):
             plays.append(dict(id=10 ** 6 + len(plays), E=p, start=s, lat=lat, clock=clock))
-    nrp = 8000 if thorough else 700
+    nrp = 25000 if thorough else 700
     for _ in range(nrp):
         s, lat, clock = rnd.choice(starts)
         plays.append(dict(id=10 ** 6 + len(plays), E=g.prog(), start=s, lat=lat, clock=clock))
